@@ -341,7 +341,7 @@ def gen_delineate_area(rng, tier):
         n = nr * nc
         outlet = rng.randrange(-1, n + 1)
         inl = [rng.randrange(-1, n + 1) for _ in range(rng.choice([0, 0, 1, 2]))]
-        for nval in (n + 1, rng.randint(0, n + 1), 1):
+        for nval in (n + 1, rng.randint(0, n + 1), 1, 2, 3):
             out.append([nr, nc, fdc, fd, outlet, len(inl), inl, nval, [7] * max(nval, 0), [7] * max(nval, 0), [7] * max(nval, 0)])
     return out
 
@@ -606,19 +606,38 @@ def install_monitors():
 
 
 def run_monitors(run, names):
-    """bounded python-level monitors (props/monitors.py) against the python files and freshly compiled kernels of the working tree"""
+    """bounded python-level monitors (props/monitors.py) against the python files and freshly compiled kernels of the working tree.
+    They run in a child process: a native crash of the code under test is contained and reported."""
+    from vf import child
+    res = child.run('props.common', 'monitors_in_child', run.prop, run.tier, run.seed, args=dict(names=list(names)))
+    child.merge(run, res['recorder'])
+    if res['rc'] != 0:
+        what = 'while running %s' % (res['progress'] or 'the bounded monitors')
+        if res['signal']:
+            msg = 'the python interpreter was brought down (%s) %s: native crash in the code under test; %s' % (child.signame(res['signal']), what, res['stderr'][-300:].replace('\n', ' '))
+            if run.prop == 'C05':
+                run.violation(dict(function='interpreter', kind='crash', where=res['progress'][:120]), msg, witness=dict(python=True, source='bounded monitor in a child process', doing=res['progress'], stderr=res['stderr'][-1500:]))
+            else:
+                run.broken.append('bounded monitors could not complete: ' + msg + ' (this is a violation of C05, reported by the C05 check; this check cannot decide its own property on such a tree)')
+        else:
+            run.broken.append('monitor child process failed (rc=%s) %s: %s' % (res['rc'], what, res['stderr'][-1500:]))
+    a = 'bounded monitors run against extension modules compiled from the working tree with gcc from the generated c_hydrodiy_*.c (Cython is not installed: a change to a .pyx file is not seen by the dynamic part)'
+    if a not in run.assumptions:
+        run.assumptions.append(a)
+
+
+def monitors_in_child(rec, names):
     import traceback
+    from vf import child
     from props import apidrive, monitors
     try:
         apidrive.setup()
     except Exception:
-        run.broken.append('building the extension modules from the working tree failed: ' + traceback.format_exc()[-1500:]); return
+        rec.broken.append('building the extension modules from the working tree failed: ' + traceback.format_exc()[-1500:]); return
     for nm in names:
+        child.progress('monitor ' + nm)
         try:
-            res = getattr(monitors, nm)(run.rng, run.tier)
-            res.report(run, nm)
+            res = getattr(monitors, nm)(rec.rng, rec.tier)
+            res.report(rec, nm)
         except Exception:
-            run.broken.append('monitor %s crashed: %s' % (nm, traceback.format_exc()[-1800:]))
-    a = 'bounded monitors run against extension modules compiled from the working tree with gcc from the generated c_hydrodiy_*.c (Cython is not installed: a change to a .pyx file is not seen by the dynamic part)'
-    if a not in run.assumptions:
-        run.assumptions.append(a)
+            rec.broken.append('monitor %s crashed: %s' % (nm, traceback.format_exc()[-1800:]))
